@@ -75,7 +75,7 @@ pub fn try_unchecked_exact<S: Src, const SIDE: u8, const KG: u8>(s: &mut S) {
 /// occurrences of the symbolic target in `legal::gen_X(b)` = [pseudo-legal, in class X, accepted by A].
 /// With `prefiltered_legal_exact` (A = the rules) this is "exactly the legal moves, each once".
 /// Natively (replay) the real generator is compared with the rules directly.
-pub fn legal_gen_list<S: Src, const SIDE: u8, const G: u8, const K: u32>(s: &mut S) {
+pub fn legal_gen_list<S: Src, const SIDE: u8, const G: u8, const KP: u32, const KN: u32>(s: &mut S) {
     use crate::c06::*;
     use owlchess::movegen::legal;
     crate::stubs::draw_hash_pool(s);
@@ -83,7 +83,7 @@ pub fn legal_gen_list<S: Src, const SIDE: u8, const G: u8, const K: u32>(s: &mut
         Some(b) => b,
         None => return,
     };
-    vassume!(gen_bound(&b, K));
+    vassume!(gen_bound2(&b, KP, KN));
     let p = pos_of(b.raw());
     let t = any_m(s);
     let ans = s.bool();
